@@ -42,3 +42,70 @@ def extra_zero_codeword(d):
         return False
     pads = det['pad_codewords']
     return bool(pads) and pads[0] == 0 and det['pads_tail_ok'] is True
+
+
+def _sa_case(d):
+    case = d['case']
+    det = d['detail']
+    content = case['content']
+    text = content if isinstance(content, (bytes, bytearray)) else str(content)
+    return case, det, content, text
+
+
+@classifier('sa-parity-ignores-encoding')
+def sa_parity_ignores_encoding(d):
+    """C08: an explicit single-byte `encoding` is given; everything reassembles, only the parity byte is the XOR of the
+    message under the default text->bytes policy instead of under the requested encoding."""
+    if d['kind'] != 'sequence':
+        return False
+    case, det, content, text = _sa_case(d)
+    if det['symptoms'] != ['parity-wrong'] or not case['kw'].get('encoding') or isinstance(content, (bytes, bytearray)):
+        return False
+    return det.get('parity') is not None and det.get('parity') == det.get('parity_default_policy') \
+        and det.get('parity') != det.get('parity_expected')
+
+
+@classifier('sa-char-chunks-per-chunk-encoding')
+def sa_char_chunks(d):
+    """C08: text in byte mode whose bytes are not one per character (multi-byte effective encoding): the content is cut
+    by characters and every chunk chooses its own encoding. Symptoms limited to overflow / payload / parity."""
+    if d['kind'] != 'sequence':
+        return False
+    case, det, content, text = _sa_case(d)
+    if isinstance(content, (bytes, bytearray, int)) or det.get('mode') != 'byte':
+        return False
+    if not set(det['symptoms']) <= {'chunk-overflow', 'payload-mismatch', 'parity-wrong'}:
+        return False
+    return det.get('expected_len') is not None and det['expected_len'] != len(text)
+
+
+@classifier('sa-version-count-underestimate')
+def sa_version_count(d):
+    """C08: `version` given: the symbol count estimate ignores the per-symbol mode / count indicator, so equally divided
+    chunks do not fit. Only symptom: overflow of exactly those chunks whose recomputed cost + 20 header bits exceeds the
+    capacity of (version, requested level); payload one count unit per character."""
+    from vmon import oracle
+    if d['kind'] != 'sequence':
+        return False
+    case, det, content, text = _sa_case(d)
+    kw = case['kw']
+    if det['symptoms'] != ['chunk-overflow'] or kw.get('version') is None:
+        return False
+    mode = det.get('mode')
+    if mode is None:
+        return False
+    if mode == 'byte' and not isinstance(content, (bytes, bytearray)) and det.get('expected_len') != len(text):
+        return False
+    a = oracle.normalize_args(kw)
+    version, level = a['version_name'], a['error_name'] or 'L'
+    n = det['n']
+    k, m = divmod(len(text), n)
+    lens = [(i + 1) * k + min(i + 1, m) - (i * k + min(i, m)) for i in range(n)]
+    cap = oracle.capacity(version, level)
+    per = 2 if mode in ('kanji', 'hanzi') else 1
+    over = []
+    for i, ln in enumerate(lens):
+        c = oracle.seg_cost(version, mode, ln * per)
+        if c is None or c + 20 > cap:
+            over.append(i)
+    return bool(over) and over == det.get('overflow_symbols')
